@@ -472,7 +472,7 @@ TRIGGERS = {
     "repeat_step": lambda c: "repeat" in _kinds(c) and (_nonsquare0(c) or _first(c) in ("matmul", "cat")),
     "squeeze_step": lambda c: "squeeze" in _kinds(c) and (_first(c) == "matmul" or bool({"Kernel", "Matmul"} & _all_classes(c))),
     "sum_step": lambda c: "sum" in _kinds(c) and (bool({"Interpolated", "KroneckerDiag", "KroneckerAddedDiag"} & _all_classes(c)) or (_first(c) in ("add", "sub", "radd_tensor", "rsub_tensor") and bool(DIAGISH & set(_heads(c))))),
-    "expand_step": lambda c: "expand" in _kinds(c) and ("ConstantMul" in _all_classes(c) or _first(c) in ("mul_scalar", "rmul_scalar", "div_scalar")),
+    "expand_transpose_permutation": lambda c: bool({"expand", "repeat"} & set(_kinds(c))) and "TransposePermutation" in _all_classes(c),
     "zero_add_diagonal": lambda c: bool({"add_diagonal", "add_jitter"} & set(_kinds(c))) and "Zero" in _all_classes(c),
 }
 
